@@ -161,7 +161,7 @@ def replay(scn):
     nd = len(a_abs["dims"])
     kind_variants = [("i", 0)]
     if i["fam"] == "forms" and i["mode"] == "label":
-        kind_variants = [("i", 0), ("f", 0), ("s", 0), ("i", -4)]
+        kind_variants = [("i", 0), ("f", 0), ("s", 0), ("i", -4), ("u", 0), ("f", 2000000)]     # + unsigned labels, large floats
     if i["fam"] == "points" and i["mode"] == "label":
         kind_variants = [("i", 0), ("s", 0)]
     for vi, (kind, off) in enumerate(kind_variants):
